@@ -126,22 +126,22 @@ class HEXline(object):
             cksum = -(sum(s) & 0xFF)
             self.cksum = cksum & 0xFF
             assert self.cksum == int(line[-2:], 16)
+            v = codecs.encode(self.data, "hex")
+            if self.HEXcode == ExtendedSegmentAddress:
+                assert self.count == 2
+                self.base = int(v, 16)
+            if self.HEXcode == StartSegmentAddress:
+                assert self.count == 4
+                self.cs = int(v[:4], 16)
+                self.ip = int(v[4:], 16)
+            if self.HEXcode == ExtendedLinearAddress:
+                assert self.count == 2
+                self.ela = int(v, 16)
+            if self.HEXcode == StartLinearAddress:
+                assert self.count == 4
+                self.eip = int(v, 16)
         except (AssertionError, ValueError):
             raise HEXError(line)
-        v = codecs.encode(self.data, "hex")
-        if self.HEXcode == ExtendedSegmentAddress:
-            assert self.count == 2
-            self.base = int(v, 16)
-        if self.HEXcode == StartSegmentAddress:
-            assert self.count == 4
-            self.cs = int(v[:4], 16)
-            self.ip = int(v[4:], 16)
-        if self.HEXcode == ExtendedLinearAddress:
-            assert self.count == 2
-            self.ela = int(v, 16)
-        if self.HEXcode == StartLinearAddress:
-            assert self.count == 4
-            self.eip = int(v, 16)
 
     def pack(self):
         s = b":%02X%04X%02X" % (self.count, self.address, self.HEXcode)
